@@ -99,7 +99,7 @@ func main() {
 		cfg := &symgo.Config{
 			Entry: e, MaxDecisions: *maxDec, MaxSteps: *maxSteps, MaxDepth: 400,
 			QueryTimeout: *qto, IntMode: *ints == "int", Trace: *trace,
-			Stubs: ld.Stubs, InitSkip: ld.InitOK, NoIfConv: *noifc,
+			Stubs: ld.Stubs, InitSkip: ld.InitOK, NoIfConv: *noifc, SmtLog: *smtlog,
 		}
 		if *shadow != "" {
 			cfg.ShadowBin = strings.Fields(*shadow)
